@@ -13,7 +13,7 @@ ALLOWED_DIFFERENCES = ["any-bool: interface{} target leaves a BOOLEAN nil and un
                        "the lax parameter itself; field names in error texts (errors are compared as a class)"]
 ASSUMPTIONS = ["the fixed list of allowed fork/upstream differences (counted as allowed-diff:* in the histogram, never failures): " + "; ".join(ALLOWED_DIFFERENCES),
                "64-bit int (lengths < 2^31 cannot overflow offset arithmetic)",
-               "time.Time and interface{} targets are outside the Lean model (differential comparison with encoding/asn1 only)"]
+               "no-panic and the allocation bound are harness oracles, not theorems; Canon has no interface{} targets (c-lines answer 'skip' there)"]
 
 def is_nontrivial(op, impl):
     return impl.startswith("ok ")
